@@ -618,8 +618,219 @@ def rule_propagation(model):
     return r
 
 
+class _OS(BaseState):
+    def __init__(self, env=None):
+        self.env = dict(env or {})
+
+    def key(self):
+        return tuple(sorted(self.env.items()))
+
+    def copy(self):
+        n = _OS(self.env)
+        n.trace = self.trace
+        return n
+
+
+class _OriginDomain(Domain):
+    """Which namespace object a local names: 'fresh' (a TemplateDict built
+    by this call) or 'foreign' (anything else)."""
+
+    def __init__(self, model, fi):
+        self.model = model
+        self.fi = fi
+        self.sites = []       # (node, var, origin)
+
+    def _origin(self, v, st):
+        if isinstance(v, ast.Call):
+            names = self.model.callee_names(v, self.fi)
+            if any(x.endswith(':TemplateDict') for x in names) or (
+                    isinstance(v.func, ast.Call) and
+                    norm(v.func) == 'type(self)'):
+                return 'fresh'
+        if isinstance(v, ast.Name):
+            return st.env.get(v.id, 'foreign')
+        return 'foreign'
+
+    def raises(self, node, st):
+        return []
+
+    def effects(self, stmt, st):
+        if isinstance(stmt, ast.Assign):
+            for t in stmt.targets:
+                if isinstance(t, ast.Attribute) and \
+                        isinstance(t.value, ast.Name) and \
+                        t.attr in ('guarded_getattr', 'guarded_getitem'):
+                    self.sites.append((stmt, t.value.id, t.attr,
+                                       st.env.get(t.value.id, 'foreign')))
+            if len(stmt.targets) == 1 and \
+                    isinstance(stmt.targets[0], ast.Name):
+                st = st.copy()
+                st.env[stmt.targets[0].id] = self._origin(stmt.value, st)
+        for c in ast.walk(stmt):
+            if isinstance(c, ast.Call) and isinstance(c.func, ast.Name) and \
+                    c.func.id == 'setattr' and len(c.args) == 3 and \
+                    isinstance(c.args[0], ast.Name):
+                self.sites.append((stmt, c.args[0].id, 'setattr',
+                                   st.env.get(c.args[0].id, 'foreign')))
+        return st
+
+
+def rule_guard_owner(model):
+    r = RuleResult('C05.R6', 'guards are installed only on a namespace the '
+                   'installing function has just created: the guards of a '
+                   'namespace handed in by the caller (a restricted '
+                   'template rendering a sub-template) are never replaced')
+    n = 0
+    for fi in model.all_funcs():
+        if fi.module.short == 'security':
+            continue
+        direct = any(isinstance(x, ast.Attribute) and
+                     isinstance(x.ctx, ast.Store) and
+                     x.attr in ('guarded_getattr', 'guarded_getitem') and
+                     isinstance(x.value, ast.Name) and x.value.id != 'self'
+                     for x in own_nodes(fi.node))
+        via_setattr = any(
+            isinstance(c, ast.Call) and isinstance(c.func, ast.Name)
+            and c.func.id == 'setattr' and len(c.args) == 3
+            for c in own_nodes(fi.node)) and \
+            'guarded_getattr' in ast.unparse(fi.node)
+        if not direct and not via_setattr:
+            continue
+        dom = _OriginDomain(model, fi)
+        Interp(dom).run(fi.node, _OS())
+        seen = set()
+        for node, var, attr, origin in dom.sites:
+            if attr == 'setattr' and 'guarded' not in ast.unparse(fi.node):
+                continue
+            k = (id(node), origin)
+            if k in seen:
+                continue
+            seen.add(k)
+            n += 1
+            r.instance(fi.where, node, f'{var}: {origin}')
+            if origin != 'fresh':
+                r.finding(fi.where, node, f'`{var}` may be a namespace '
+                          'received from the caller here: its guards are '
+                          'overwritten (an unrestricted sub-template '
+                          'switches the guards off for the rest of the '
+                          'restricted rendering)', node=node, ctx=fi)
+    if n < 3:
+        raise AnalysisError(f'C05.R6: only {n} guard installations found')
+    r.floor = 3
+    return r
+
+
+def rule_index_removal(model):
+    r = RuleResult('C05.R7', 'refused elements are removed completely: a '
+                   'loop that deletes by previously collected positions '
+                   'walks them from the highest down (deleting in ascending '
+                   'order shifts the remaining positions, so a refused '
+                   'element stays and an allowed one disappears)')
+    n = 0
+    for fi in model.all_funcs():
+        for lp in own_nodes(fi.node):
+            if not (isinstance(lp, ast.For) and
+                    isinstance(lp.target, ast.Name)):
+                continue
+            iv = lp.target.id
+            dels = []
+            for x in ast.walk(lp):
+                if isinstance(x, ast.Delete):
+                    for t in x.targets:
+                        if isinstance(t, ast.Subscript) and \
+                                norm(t.slice) == iv:
+                            dels.append(x)
+                if isinstance(x, ast.Call) and \
+                        isinstance(x.func, ast.Attribute) and \
+                        x.func.attr == 'pop' and len(x.args) == 1 and \
+                        norm(x.args[0]) == iv:
+                    dels.append(x)
+            if not dels:
+                continue
+            it = lp.iter
+            # positions come from a list filled in an ascending index loop?
+            src = None
+            descending = False
+            if isinstance(it, ast.Call) and norm(it.func) == 'reversed' and \
+                    it.args and isinstance(it.args[0], ast.Name):
+                src, descending = it.args[0].id, True
+            elif isinstance(it, ast.Subscript) and norm(it.slice) == '::-1' \
+                    and isinstance(it.value, ast.Name):
+                src, descending = it.value.id, True
+            elif isinstance(it, ast.Call) and norm(it.func) == 'sorted' and \
+                    it.args and isinstance(it.args[0], ast.Name):
+                src = it.args[0].id
+                descending = any(k.arg == 'reverse' and
+                                 isinstance(k.value, ast.Constant) and
+                                 k.value.value for k in it.keywords)
+            elif isinstance(it, ast.Name):
+                src = it.id
+            elif isinstance(it, ast.Call) and norm(it.func) == 'range':
+                # deleting while walking a range: descending iff step < 0
+                if len(it.args) == 3 and norm(it.args[2]).startswith('-'):
+                    continue
+                src = None
+            if src is None:
+                continue
+            filled = [x for x in own_nodes(fi.node)
+                      if isinstance(x, ast.Call) and
+                      isinstance(x.func, ast.Attribute) and
+                      x.func.attr == 'append' and
+                      norm(x.func.value) == src]
+            if not filled:
+                continue
+            if not descending:
+                # an in-place reverse between filling and deleting
+                for x in own_nodes(fi.node):
+                    if isinstance(x, ast.Call) and \
+                            isinstance(x.func, ast.Attribute) and \
+                            norm(x.func.value) == src and \
+                            x.func.attr == 'reverse' and \
+                            filled[-1].lineno < x.lineno <= lp.lineno:
+                        descending = True
+                    if isinstance(x, ast.Call) and \
+                            isinstance(x.func, ast.Attribute) and \
+                            norm(x.func.value) == src and \
+                            x.func.attr == 'sort' and any(
+                                k.arg == 'reverse' and
+                                isinstance(k.value, ast.Constant) and
+                                k.value.value for k in x.keywords):
+                        descending = True
+            n += 1
+            r.instance(fi.where, dels[0], 'descending' if descending
+                       else 'ASCENDING')
+            if not descending:
+                r.finding(fi.where, dels[0], f'positions collected in '
+                          f'`{src}` are deleted in ascending order: after '
+                          'the first deletion the remaining positions are '
+                          'off by one, so with two refused elements the '
+                          'second stays visible and an allowed element is '
+                          'dropped', node=dels[0], ctx=fi)
+    if n < 1:
+        # removal written as a filter: [x for i, x in enumerate(items)
+        #                               if i not in refused]
+        for fi in model.all_funcs():
+            for c in own_nodes(fi.node):
+                if isinstance(c, (ast.ListComp, ast.GeneratorExp)) and any(
+                        isinstance(t, ast.Compare) and
+                        isinstance(t.ops[0], ast.NotIn)
+                        for g in c.generators for i_ in g.ifs
+                        for t in ast.walk(i_)) and any(
+                        isinstance(g.iter, ast.Call) and
+                        norm(g.iter.func) == 'enumerate'
+                        for g in c.generators):
+                    n += 1
+                    r.instance(fi.where, c, 'filter by position set')
+    if n < 1:
+        raise AnalysisError('C05.R7: removal-by-position loop of '
+                            'skip_unauthorized not found')
+    r.floor = 1
+    return r
+
+
 RULES = [rule_attr_reads, rule_item_reads, rule_underscore,
-         rule_restricted, rule_propagation]
+         rule_restricted, rule_propagation, rule_guard_owner,
+         rule_index_removal]
 EXPLANATION = (
     'Classification of every getattr-family call site with a dynamic name '
     'and of every element read of an iterated client sequence (reaching '
